@@ -92,7 +92,7 @@ func genSuffix(t *rapid.T) SCase {
 	fails := []string{"range", "txn", "lostack"}
 	n := rapid.IntRange(4, 24).Draw(t, "nops")
 	for i := 0; i < n; i++ {
-		switch rapid.IntRange(0, 24).Draw(t, "kind") {
+		switch rapid.IntRange(0, 25).Draw(t, "kind") {
 		case 22, 23, 24:
 			op := SOp{K: "crace", DC: dc("dc"), X: rapid.IntRange(0, nExtras-1).Draw(t, "x"),
 				N: rapid.IntRange(2, 3).Draw(t, "newdcs"), T: rapid.IntRange(2, 3).Draw(t, "runs")}
@@ -111,6 +111,16 @@ func genSuffix(t *rapid.T) SCase {
 				c.Ops = append(c.Ops, SOp{K: "leader", M: mem("m")})
 			}
 			c.Ops = append(c.Ops, op)
+		case 25:
+			// a local allocator takes office while the suffix width is at a power-of-two boundary, then more dc-locations
+			// join at runtime and the member learns about them: the allocator (still in office) must report the new width
+			a := mem("a")
+			x0 := rapid.IntRange(0, nExtras-4).Draw(t, "x")
+			c.Ops = append(c.Ops, SOp{K: "leader", M: a}, SOp{K: "extra", M: x0, DC: dc("dc")}, SOp{K: "check", M: a}, SOp{K: "alloc", DC: dc("adc")})
+			for k, more := 1, rapid.IntRange(1, 3).Draw(t, "more"); k <= more; k++ {
+				c.Ops = append(c.Ops, SOp{K: "extra", M: x0 + k, DC: dc("dc")})
+			}
+			c.Ops = append(c.Ops, SOp{K: "check", M: a})
 		case 16, 17:
 			// the PD leader runs the real campaign path of a local allocator (allocatorLeaderLoop) for a dc-location it knows
 			c.Ops = append(c.Ops, SOp{K: "alloc", DC: dc("dc")})
@@ -222,6 +232,7 @@ type snode struct {
 	watchDone   chan struct{}
 	watchStop   context.CancelFunc
 	maxReported int32
+	bitsFloor   int // largest GetSuffixBits() this manager has shown
 }
 
 type sworld struct {
@@ -237,6 +248,7 @@ type sworld struct {
 	incon                       bool
 	allocs                      []*salloc
 	generated, elected, waiting int
+	values                      map[uint64]string // composed timestamps handed out by local allocators -> dc-location
 	// TSOUpdatePhysicalInterval of the members (also the pause between retries after a logical overflow)
 	updInterval time.Duration
 }
@@ -399,6 +411,9 @@ func (w *sworld) observe(step int, what string) error {
 			}
 		}
 		b := n.am.GetSuffixBits()
+		if b > n.bitsFloor {
+			n.bitsFloor = b
+		}
 		if n.maxReported > 0 && 1<<uint(b) <= int(n.maxReported) {
 			return fmt.Errorf("op %d (%s): manager pd%d has GetSuffixBits()=%d but has reported suffix %d (needs %d bits)",
 				step, what, n.idx+1, b, n.maxReported, needBits(n.maxReported))
@@ -406,8 +421,10 @@ func (w *sworld) observe(step int, what string) error {
 	}
 	// every local allocator that leads its dc-location hands out a few timestamps (before etcd is read)
 	type gen struct {
-		a  *salloc
-		ts pdpb.Timestamp
+		a     *salloc
+		ts    pdpb.Timestamp
+		n     uint32
+		floor int // suffix width the member's manager was known to have before the request (it never shrinks)
 	}
 	var gens []gen
 	for _, a := range w.allocs {
@@ -415,11 +432,12 @@ func (w *sworld) observe(step int, what string) error {
 			continue
 		}
 		for _, cnt := range []uint32{1, 1, 2} {
+			floor := w.nodes[a.node].bitsFloor
 			ts, err := w.nodes[a.node].am.HandleTSORequest(a.dc, cnt)
 			if err != nil {
 				break
 			}
-			gens = append(gens, gen{a, ts})
+			gens = append(gens, gen{a, ts, cnt, floor})
 		}
 	}
 	cur, err := w.etcdSuffixes()
@@ -433,6 +451,18 @@ func (w *sworld) observe(step int, what string) error {
 				step, what, g.a.dc, g.a.node+1, g.ts.GetLogical(), g.ts.GetSuffixBits(), g.a.dc, cur)
 		}
 		b := g.ts.GetSuffixBits()
+		if int(b) < g.floor {
+			return fmt.Errorf("op %d (%s): the local allocator of %s on pd%d reports %d suffix bits with a timestamp, but the manager of pd%d already had a suffix width of %d (dc-locations that joined since the allocator took office are in use): too narrow for every suffix in use",
+				step, what, g.a.dc, g.a.node+1, b, g.a.node+1, g.floor)
+		}
+		// composed values of different allocators never coincide
+		for i := uint32(0); i < g.n; i++ {
+			v := compose(g.ts.GetPhysical(), g.ts.GetLogical()-int64(g.n-1-i)<<b)
+			if o, dup := w.values[v]; dup && o != g.a.dc {
+				return fmt.Errorf("op %d (%s): the local allocators of %s and %s both handed out timestamp %d (physical %d, logical %d)", step, what, o, g.a.dc, v, v>>18, v&(1<<18-1))
+			}
+			w.values[v] = g.a.dc
+		}
 		if 1<<b <= int64(sfx) {
 			return fmt.Errorf("op %d (%s): the local allocator of %s on pd%d reports %d suffix bits, too narrow for its own suffix %d", step, what, g.a.dc, g.a.node+1, b, sfx)
 		}
@@ -498,7 +528,7 @@ func runSuffix(c SCase) (vkit.Info, error) {
 	if c.NM < 2 || c.NM > 3 {
 		return info, nil
 	}
-	w := &sworld{f: f, sl: sl, root: f.Root(), leader: -1, dcOf: map[uint64]string{}, hist: map[string]int32{}}
+	w := &sworld{f: f, sl: sl, root: f.Root(), leader: -1, dcOf: map[uint64]string{}, hist: map[string]int32{}, values: map[uint64]string{}}
 	w.ctx, w.cancel = context.WithCancel(context.Background())
 	for i := 0; i < c.NM; i++ {
 		w.nodes = append(w.nodes, w.newNode(i))
